@@ -159,6 +159,7 @@ static void observe(qhasharr_t *t, const model_t *m, int check, const char *who,
         size_t sz = 7777; errno = 0;
         void *d = (k & 1) ? t->get_by_obj(t, kb, KEYN[k], &sz) : t->get(t, kb, &sz);
         int e = errno;
+        if (check) { void *d2 = (k & 1) ? t->get_by_obj(t, kb, KEYN[k], NULL) : t->get(t, kb, NULL); if ((d2 != NULL) != (d != NULL)) vc_viol("image:get-null-size-pointer", "after %s (%s): get of key %d without a size pointer disagrees with get with one", after, who, k); free(d2); }
         memset(kb, 0xA5, KEYN[k]); free(kb); n_scribbled++;
         if (d) { p += sprintf(p, "%d=%zu:%llx;", k, sz, (unsigned long long)h64(d, sz) & 0xffffff); } else p += sprintf(p, "%d=-;", k);
         if (check) {
